@@ -61,16 +61,15 @@ Print Assumptions C09_reads_back.
                            zero (the `12 <= len` clause of head_ok follows from the placeholder clause, and
                            patch_head panics on a shorter head anyway: C09_head_placeholder_len)
      u32 tags              tags are u32 in the Rust; the directory stores them in 4 bytes
-     m = Release -> < 4096 a debug build panics in the u16 search-range arithmetic from 4096 tables on
-                           (so nothing is assumed there); a release build wraps and writes a wrong
-                           searchRange (known finding C09-search-range-overflow)
+   NOT needed any more: a bound on the number of tables.  From 4096 tables on the 16-bit search fields
+   cannot hold their values; since the repair c89f93a the writer refuses such a font in every build
+   (C09_too_many_tables_refused) where it used to panic (debug) or write a wrapped searchRange (release).
    NOT needed, so not assumed: table bytes in [0,256) (payloads are copied, never decoded), a bound on
    table lengths / offsets / file size (`directory` returns Err when an offset or length does not fit
    u32), 1 <= len tables (implied by the head), len tables <= 65535 (Err), any condition on `ver`. *)
 Theorem C09_written_font_is_valid : forall m ver tables file,
   build_font m ver tables = Ok file -> tables_wf tables ->
   Forall (fun tb => u32v (fst tb)) tables ->
-  (m = Release -> len tables < 4096) ->
   valid_sfnt file = true.
 Proof. exact build_valid. Qed.
 Print Assumptions C09_written_font_is_valid.
@@ -81,7 +80,6 @@ Theorem C09_inserted_font_is_valid : forall m ver ins file,
   build_from_inserts m ver ins = Ok file ->
   In HEAD_TAG (map fst ins) ->
   Forall (fun tb => u32v (fst tb) /\ (fst tb = HEAD_TAG -> head_ok (snd tb))) ins ->
-  (m = Release -> len ins < 4096) ->
   valid_sfnt file = true.
 Proof. exact build_from_inserts_valid. Qed.
 Print Assumptions C09_inserted_font_is_valid.
@@ -91,7 +89,6 @@ Theorem C09_inserted_font_is_valid_map : forall m ver ins file,
   build_from_inserts m ver ins = Ok file ->
   count_head (table_map ins) = 1%nat ->
   Forall (fun tb => u32v (fst tb) /\ (fst tb = HEAD_TAG -> head_ok (snd tb))) (table_map ins) ->
-  (m = Release -> len (table_map ins) < 4096) ->
   valid_sfnt file = true.
 Proof. exact build_from_inserts_valid_map. Qed.
 Print Assumptions C09_inserted_font_is_valid_map.
@@ -135,13 +132,19 @@ Example C09_u32_tags_needed :        (* [head; tag 2^32 + 5]: stored as 5, direc
   tables_wf wit_bigtag /\ judged (build_font Debug 65536 wit_bigtag) = Some false.
 Proof. exact wit_bigtag_needed. Qed.
 
-Example C09_release_bound_needed :   (* 4096 tables: release wraps searchRange to 0, debug panics *)
+(* too many tables for the 16-bit search fields: refused with an error, never written wrapped *)
+Theorem C09_too_many_tables_refused : forall m ver tables,
+  4096 <= len tables <= 65535 -> build_font m ver tables = Err BadValue.
+Proof. exact too_many_tables_refused. Qed.
+Print Assumptions C09_too_many_tables_refused.
+
+Example C09_4096_tables_refused :    (* the witness of the repaired defect: head + 4095 empty tables *)
   In HEAD_TAG (map fst wit_many) /\
   Forall (fun tb => u32v (fst tb) /\ (fst tb = HEAD_TAG -> head_ok (snd tb))) wit_many /\
   len wit_many = 4096 /\
-  (exists file, build_from_inserts Release 65536 wit_many = Ok file /\ valid_sfnt file = false) /\
-  build_from_inserts Debug 65536 wit_many = Panic.
-Proof. exact wit_many_needed. Qed.
+  build_from_inserts Release 65536 wit_many = Err BadValue /\
+  build_from_inserts Debug 65536 wit_many = Err BadValue.
+Proof. exact wit_many_refused. Qed.
 
 (* a concrete insertion sequence, computed: the judge accepts it *)
 Definition ex_head : list Z := [0;1;0;0; 0;0;0;0; 0;0;0;0; 95;15;60;245; 1;2].
